@@ -587,6 +587,10 @@ def install_faults(w, scn):
                         world.log.append({'ev': 'kill', 'f': p.name, 'inc': p.incarnation, 't': world.now, 'restart': d})
                         world.kill(p, drop_inflight=spec.get('drop_inflight', True))
 
+                        if (after := spec.get('after_ms')) is not None:     # run for a fixed time after the fault (and restart)
+                            world.horizon_ms = world.now + (d or 0) + after
+                            world.quiet_ms   = None
+
                         if d is not None:
                             world.at(d, lambda: (world.log.append({'ev': 'restart', 'f': p.name, 'inc': p.incarnation + 1, 't': world.now}),
                                                  world.start_filter(byname[p.name], p.incarnation + 1)), f'restart {p.name}')
